@@ -322,8 +322,12 @@ func contains(l []string, x string) bool {
 }
 
 func main() {
+	if len(os.Args) >= 4 && os.Args[1] == "one" {
+		replayOne(os.Args[2], os.Args[3])
+		return
+	}
 	if len(os.Args) < 5 {
-		fmt.Fprintln(os.Stderr, "usage: racer <ref|run> <quick|thorough> <seed> <outdir>")
+		fmt.Fprintln(os.Stderr, "usage: racer <ref|run> <quick|thorough> <seed> <outdir> | racer one <hex scenario> <repetitions>")
 		os.Exit(2)
 	}
 	mode, tier := os.Args[1], os.Args[2]
@@ -449,4 +453,56 @@ func main() {
 	}
 	enc.Encode(map[string]interface{}{"kind": "summary", "scenarios": n, "repetitions": reps, "calls": totalCalls, "exec_calls": execCalls,
 		"classes": classes, "seconds": time.Since(start).Seconds()})
+}
+
+// replayOne: re-run ONE scenario (hex of its JSON description, as printed after "SCENARIO n") many times under the
+// race detector, comparing with its sequential references computed in this process.
+func replayOne(hexDesc, repsS string) {
+	b, err := hex.DecodeString(hexDesc)
+	var sc scenario
+	if err != nil || json.Unmarshal(b, &sc) != nil {
+		fmt.Fprintln(os.Stderr, "racer one: bad scenario")
+		os.Exit(2)
+	}
+	reps, _ := strconv.Atoi(repsS)
+	rf := computeRefs([]scenario{sc}, 1)
+	data := dataFor(sc.Data)
+	bad := 0
+	for rep := 0; rep < reps; rep++ {
+		runtime.GOMAXPROCS([]int{1, 2, 4, 8, 16}[rep%5])
+		root, err := build(&sc)
+		if err != nil {
+			fmt.Println("unparsable")
+			return
+		}
+		results := make([][]string, len(sc.Threads))
+		var wg sync.WaitGroup
+		gate := make(chan struct{})
+		for t := range sc.Threads {
+			wg.Add(1)
+			go func(t int) {
+				defer wg.Done()
+				<-gate
+				for _, c := range sc.Threads[t] {
+					results[t] = append(results[t], doCall(root, c, data))
+				}
+			}(t)
+		}
+		close(gate)
+		wg.Wait()
+		for t := range sc.Threads {
+			for i, got := range results[t] {
+				if sc.Threads[t][i].Op == "defined" {
+					continue
+				}
+				if !contains(rf.Allowed[0][key(t, i)], got) {
+					bad++
+					if bad <= 3 {
+						fmt.Printf("mismatch thread %d call %d %+v: got %q, sequential runs give %q\n", t, i, sc.Threads[t][i], got, rf.Allowed[0][key(t, i)])
+					}
+				}
+			}
+		}
+	}
+	fmt.Printf("replayed %d times: %d results not explained by a sequential run (data races, if any, are reported by the race detector on stderr)\n", reps, bad)
 }
